@@ -273,7 +273,8 @@ def gen_doc(rng, ntab=None, table_entry=False, zero_array=True):
         for _ in range(rng.randrange(1, 4)):
             col = gen_ident(rng, used_c, pool=['flag', 'state', 'e'])
             used_c.add(col)
-            ty = gen_ident(rng, {t for t in used_t}, pool=['BOOLEAN', 'status', 'Mode'])
+            # (type names that contain the name of a C type in lower case are ordinary identifiers: charge, sub_chart, interval)
+            ty = gen_ident(rng, {t for t in used_t}, pool=['BOOLEAN', 'status', 'Mode', 'charge', 'sub_chart', 'interval', 'shortlist'])
             if ty.upper() in {t.upper() for t in used_t}:
                 continue
             used_t.add(ty)
